@@ -224,6 +224,15 @@ func DrawNetCfg(c *Choice) NetCfg {
 func (c *Conn) RdPipe() *Pipe { return c.rd }
 func (c *Conn) WrPipe() *Pipe { return c.wr }
 
+// LiftWindows makes both directions of the connection unlimited from now on
+// (writers blocked on a full window become runnable).
+//
+//go:norace
+func (c *Conn) LiftWindows() {
+	c.rd.Window = 0
+	c.wr.Window = 0
+}
+
 type netErr struct {
 	msg     string
 	timeout bool
